@@ -18,6 +18,7 @@ import (
 	"sort"
 	"strconv"
 	"strings"
+	"sync"
 	"time"
 
 	"golang.org/x/tools/go/packages"
@@ -118,9 +119,13 @@ func main() {
 	}
 	switch os.Args[1] {
 	case "run":
-		os.Exit(cmdRun(os.Args[2:]))
+		rc := cmdRun(os.Args[2:])
+		cleanupReplayBins()
+		os.Exit(rc)
 	case "replay":
-		os.Exit(cmdReplay(os.Args[2:]))
+		rc := cmdReplay(os.Args[2:])
+		cleanupReplayBins()
+		os.Exit(rc)
 	default:
 		usage()
 	}
@@ -272,6 +277,7 @@ type harnessEvidence struct {
 	Vacuity     string              `json:"vacuity"`
 	Samples     []string            `json:"samples,omitempty"`
 	NFuncs      int                 `json:"functions_encoded_count"`
+	PassVal     []string            `json:"translator_validation,omitempty"`
 	Cross       []*interp.CrossStat `json:"second_solver_crosscheck,omitempty"`
 	CrossOf     int64               `json:"unsat_verdicts_of_primary_solver,omitempty"`
 }
@@ -342,6 +348,7 @@ func cmdRun(args []string) int {
 	broken := false
 	var totalPaths, totalSteps int64
 	crossTotal := map[string]int{}
+	passValOK, passValBad := 0, 0
 	nativeRuns := 0
 	var samples []interface{}
 	allExhaustive := true
@@ -395,6 +402,12 @@ func cmdRun(args []string) int {
 				opts.StepBudget = to.StepBudget
 			}
 			opts.MaxPaths = to.MaxPaths
+			if os.Getenv("VCHECK_PASSVAL") != "0" && !to.Explore && !to.Race && !*noReplay {
+				opts.PassWitness = 2
+				if *tier == "thorough" {
+					opts.PassWitness = 5
+				}
+			}
 			if os.Getenv("VCHECK_CROSS") != "0" {
 				opts.CrossSolvers = []string{"z3-new", "cvc5"}
 				opts.CrossEvery, opts.CrossMax = 40, 45
@@ -560,6 +573,32 @@ func cmdRun(args []string) int {
 					allExhaustive = false
 				}
 			}
+			// translator validation: the model of a path on which the engine found every
+			// assertion to hold is run natively; the native run must pass too and evaluate
+			// the same assertion ids
+			pws := rep.PassWitnesses
+			if len(pws) > opts.PassWitness {
+				pws = pws[len(pws)-opts.PassWitness:] // the deepest sampled paths (path 1, 7, 49, ... of the run)
+			}
+			for i, pw := range pws {
+				path := writeReplay(rc, pw, 2000+i)
+				ok, detail := replayNative(path, *verbose)
+				nativeRuns++
+				if ok {
+					passValOK++
+					he.PassVal = append(he.PassVal, "agrees: "+describe(pw))
+					os.Remove(path)
+				} else if strings.HasPrefix(detail, "native build failed") {
+					fmt.Fprintf(os.Stderr, "BROKEN harness=%s: passing path could not be replayed (%s)\n", h.Func, detail)
+					broken = true
+				} else {
+					passValBad++
+					he.PassVal = append(he.PassVal, "MISMATCH: "+detail+" replay="+path)
+					fmt.Fprintf(os.Stderr, "TRANSLATOR-MISMATCH harness=%s: the engine decided every assertion on this path, the native run of its model disagrees (%s) replay=%s: inconclusive\n", h.Func, detail, path)
+					allExhaustive = false
+					he.Exhaustive = false
+				}
+			}
 			if len(rep.Inconclusive) > 0 {
 				cnt := map[string]int{}
 				var order []string
@@ -650,6 +689,7 @@ func cmdRun(args []string) int {
 			"known_findings":                knownOut,
 			"solver":                        "z3 4.8.12 (incremental, one process per worker); unknown/timeouts are reported as inconclusive; a sample of its unsat verdicts (assertion discharges and pruned branches) is re-asked of z3 5.1.0 and cvc5 as standalone scripts, a sat answer there makes the harness inconclusive",
 			"second_solver_crosscheck":      crossTotal,
+			"translator_validation":         map[string]interface{}{"what": "models of sampled passing paths (every assertion decided to hold) run natively against the real build: the run must return, fail no assertion and evaluate the same assertion ids", "agree": passValOK, "mismatch": passValBad},
 		},
 	}
 	// VCHECK_EVIDENCE_DIR: used when a check is run against a deliberately altered tree
@@ -782,6 +822,21 @@ func sanitize(s string) string {
 
 // replayNative runs the harness natively (go test -overlay) on the assignment
 // and reports whether the recorded failure reproduces.
+var (
+	replayBinMu   sync.Mutex
+	replayBins    = map[string]string{}
+	replayTmpDirs []string
+)
+
+func cleanupReplayBins() {
+	replayBinMu.Lock()
+	defer replayBinMu.Unlock()
+	for _, d := range replayTmpDirs {
+		os.RemoveAll(d)
+	}
+	replayTmpDirs, replayBins = nil, map[string]string{}
+}
+
 func replayNative(path string, verbose bool) (bool, string) {
 	b, err := os.ReadFile(path)
 	if err != nil {
@@ -796,54 +851,68 @@ func replayNative(path string, verbose bool) (bool, string) {
 	if err != nil {
 		return false, err.Error()
 	}
-	tmp, err := os.MkdirTemp("", "vcheck-replay-")
-	if err != nil {
-		return false, err.Error()
-	}
-	defer os.RemoveAll(tmp)
-	ov := map[string]string{}
-	add := func(src, dstName string) error {
-		b, err := os.ReadFile(src)
-		if err != nil {
-			return err
-		}
-		s := strings.Replace(string(b), "package PKG", "package "+pkgName, 1)
-		real := filepath.Join(tmp, dstName)
-		if err := os.WriteFile(real, []byte(s), 0o644); err != nil {
-			return err
-		}
-		ov[filepath.Join(pkgDir, dstName)] = real
-		return nil
-	}
-	if err := add(filepath.Join(verifDir, "harness/shim/vshim.go"), "zz_verif_shim.go"); err != nil {
-		return false, err.Error()
-	}
-	if err := add(filepath.Join(verifDir, "harness/shim/vreplay_test.go"), "zz_verif_replay_test.go"); err != nil {
-		return false, err.Error()
-	}
-	for _, f := range rf.Files {
-		if err := add(filepath.Join(verifDir, "harness", f), "zz_verif_"+strings.ReplaceAll(f, "/", "_")); err != nil {
-			return false, err.Error()
-		}
-	}
-	ob, _ := json.Marshal(map[string]interface{}{"Replace": ov})
-	ovPath := filepath.Join(tmp, "overlay.json")
-	os.WriteFile(ovPath, ob, 0o644)
-	bin := filepath.Join(tmp, "replay.test")
 	env := append(os.Environ(), "GOFLAGS=-mod=mod", "GOPROXY=off", "GOSUMDB=off", "GOTOOLCHAIN=local", "VERIF_REPLAY="+path)
 	for k, v := range rf.Params {
 		env = append(env, fmt.Sprintf("VERIF_PARAM_%s=%d", k, v))
 	}
-	buildArgs := []string{"test", "-vet=off", "-c", "-o", bin, "-overlay", ovPath}
-	if rf.Kind == "race" || rf.Race {
-		buildArgs = append(buildArgs, "-race")
+	// one native binary per (package, harness files, race flag), reused by every replay of this process
+	withRace := rf.Kind == "race" || rf.Race
+	binKey := fmt.Sprintf("%s|%v|%v", rf.Pkg, rf.Files, withRace)
+	replayBinMu.Lock()
+	bin, have := replayBins[binKey]
+	if !have {
+		tmp, err := os.MkdirTemp("", "vcheck-replay-")
+		if err != nil {
+			replayBinMu.Unlock()
+			return false, err.Error()
+		}
+		replayTmpDirs = append(replayTmpDirs, tmp)
+		ov := map[string]string{}
+		add := func(src, dstName string) error {
+			b, err := os.ReadFile(src)
+			if err != nil {
+				return err
+			}
+			s := strings.Replace(string(b), "package PKG", "package "+pkgName, 1)
+			real := filepath.Join(tmp, dstName)
+			if err := os.WriteFile(real, []byte(s), 0o644); err != nil {
+				return err
+			}
+			ov[filepath.Join(pkgDir, dstName)] = real
+			return nil
+		}
+		if err := add(filepath.Join(verifDir, "harness/shim/vshim.go"), "zz_verif_shim.go"); err != nil {
+			replayBinMu.Unlock()
+			return false, err.Error()
+		}
+		if err := add(filepath.Join(verifDir, "harness/shim/vreplay_test.go"), "zz_verif_replay_test.go"); err != nil {
+			replayBinMu.Unlock()
+			return false, err.Error()
+		}
+		for _, f := range rf.Files {
+			if err := add(filepath.Join(verifDir, "harness", f), "zz_verif_"+strings.ReplaceAll(f, "/", "_")); err != nil {
+				replayBinMu.Unlock()
+				return false, err.Error()
+			}
+		}
+		ob, _ := json.Marshal(map[string]interface{}{"Replace": ov})
+		ovPath := filepath.Join(tmp, "overlay.json")
+		os.WriteFile(ovPath, ob, 0o644)
+		bin = filepath.Join(tmp, "replay.test")
+		buildArgs := []string{"test", "-vet=off", "-c", "-o", bin, "-overlay", ovPath}
+		if withRace {
+			buildArgs = append(buildArgs, "-race")
+		}
+		build := exec.Command("go", append(buildArgs, rf.Pkg)...)
+		build.Dir = repoDir
+		build.Env = env
+		if out, err := build.CombinedOutput(); err != nil {
+			replayBinMu.Unlock()
+			return false, "native build failed: " + trunc(lastLines(string(out), 6), 600)
+		}
+		replayBins[binKey] = bin
 	}
-	build := exec.Command("go", append(buildArgs, rf.Pkg)...)
-	build.Dir = repoDir
-	build.Env = env
-	if out, err := build.CombinedOutput(); err != nil {
-		return false, "native build failed: " + trunc(lastLines(string(out), 6), 600)
-	}
+	replayBinMu.Unlock()
 	runOnce := func() (bool, string) {
 		cmd := exec.Command(bin, "-test.run", "^TestVerifReplay$", "-test.v", "-test.timeout", "120s", "-test.count", "1")
 		cmd.Dir = pkgDir
@@ -949,6 +1018,29 @@ func judgeReplay(rf *ReplayFile, txt string) (bool, string) {
 			return true, "native run does not terminate (20 s)"
 		}
 		return false, "no hang natively (result: " + result + " " + crashed + ")"
+	case "pass":
+		if crashed != "" {
+			return false, "native run crashed: " + crashed
+		}
+		if len(failed) > 0 {
+			return false, "native run fails " + strings.Join(failed, ",")
+		}
+		if result != "returned" {
+			return false, "native result: " + result
+		}
+		evald := map[string]bool{}
+		for _, l := range strings.Split(txt, "\n") {
+			l = strings.TrimSpace(l)
+			if strings.HasPrefix(l, "VERIF-EVAL ") {
+				evald[strings.TrimPrefix(l, "VERIF-EVAL ")] = true
+			}
+		}
+		for _, id := range strings.Split(rf.Msg, ",") {
+			if id != "" && !evald[id] {
+				return false, "assertion " + id + " held on the engine's path but was not evaluated natively"
+			}
+		}
+		return true, "native run passes and evaluates the same assertions"
 	case "known":
 		if rf.Race && strings.Contains(txt, "WARNING: DATA RACE") {
 			return true, "data race reported natively"
